@@ -899,8 +899,8 @@ def check_C04(tier, seed):
     want = {"bindgroups"}
     compiled_and_judge(rep, "C04", cases, "exported", "shim", want, keep=["groups"])
     # operation sequences explored by TLC over the API state machine, replayed on the compiled module
-    rr = run_mc("MC_Runtime.tla", "MC_Runtime.cfg", workers=4)
-    rep.add_mc("MC_Runtime(2 groups x 3 pass kinds, sequences of 4 operations)", rr, "a group is only ever bound in its own slot; every sequence exported")
+    rr = run_mc("MC_Runtime.tla", "MC_Runtime.cfg", workers=4, consts={"MaxOps": "4" if quick else "5"})
+    rep.add_mc("MC_Runtime(2 groups x 3 pass kinds, sequences of %d operations)" % (4 if quick else 5), rr, "a group is only ever bound in its own slot; every sequence exported")
     rep.add_selftest("MC_Runtime_mut(set binds at index + 1)", run_mc("MC_Runtime.tla", "MC_Runtime_mut.cfg", workers=2, expect_violation=True))
     seqs = rr.cases[:]
     rng.shuffle(seqs)
@@ -909,7 +909,7 @@ def check_C04(tier, seed):
     for g in S2["globals"]:
         g["space"] = "handle" if g["ty"]["k"] in ("tex", "sampler") else "uniform"
     S2["entries"][0]["body"] = [{"k": "access", "g": g["name"], "how": "tex_dims" if g["ty"]["k"] == "tex" else "load"} for g in S2["globals"] if g["ty"]["k"] != "sampler"]
-    ocases = [{"id": "ops-%04d" % i, "family": "bind-groups-op-sequences", "S": S2, "opts": F.opts(), "ops": e["ops"]} for i, e in enumerate(seqs[:(120 if quick else 2317)])]
+    ocases = [{"id": "ops-%04d" % i, "family": "bind-groups-op-sequences", "S": S2, "opts": F.opts(), "ops": e["ops"]} for i, e in enumerate(seqs[:(120 if quick else 3000)])]
     # a formatter that hands back the program with two binding fields exchanged must not be believed
     fmt_env()
     S3 = F.bgd_shader([{"g": 0, "b": 4}, {"g": 0, "b": 1}, {"g": 1, "b": 0}, {"g": 1, "b": 2}], use=True, names=["first", "second", "third", "fourth"])
